@@ -122,6 +122,13 @@ fn value_class(k: &str, v: &str) -> &'static str {
 }
 
 fn run_probe(p: &Probe) -> Result<(i32, Value, String), String> {
+    run_probe_layout(p, 0)
+}
+
+/// layout of the configuration FILE: 0 = one line per setting; 1 = the same with about 5 KiB of comment lines and blank
+/// lines between the third setting and the rest; 2 = CRLF line ends and trailing spaces... no: 2 = a 5 KiB comment block
+/// in front of everything. Comments and blank lines are not settings: the result must not depend on them.
+fn run_probe_layout(p: &Probe, layout: u8) -> Result<(i32, Value, String), String> {
     let dir = scratch_dir("cfg");
     let mut settings = p.settings.clone();
     for (k, v) in settings.iter_mut() {
@@ -141,7 +148,17 @@ fn run_probe(p: &Probe) -> Result<(i32, Value, String), String> {
         cmd.arg("ENV");
     } else {
         let path = dir.join("probe.cfg");
-        let body: String = settings.iter().map(|(k, v)| format!("{}: {}\n", k, v)).collect();
+        let comment: String = (0..70).map(|i| format!("# {:03} this line is a comment and does not set anything ------------------------\n\n", i)).collect();
+        let mut body = String::new();
+        if layout == 2 {
+            body.push_str(&comment);
+        }
+        for (i, (k, v)) in settings.iter().enumerate() {
+            if layout == 1 && i == 3.min(settings.len() - 1) {
+                body.push_str(&comment);
+            }
+            body.push_str(&format!("{}: {}\n", k, v));
+        }
         std::fs::write(&path, body).map_err(|e| e.to_string())?;
         cmd.arg(&path);
     }
@@ -166,9 +183,37 @@ fn check_probe(ctx: &mut Ctx, p: &Probe) -> Res {
 }
 
 fn check_probe_mode(ctx: &mut Ctx, p: &Probe, mode: ProbeMode) -> Res {
+    check_probe_layout(ctx, p, mode, 0)?;
+    if !p.via_env && mode == ProbeMode::C16 {
+        // the same settings in a file padded with comments: same verdict
+        // (the scratch directory, and with it the persistence_directory path, differs from run to run)
+        let strip = |x: (i32, Value, String)| {
+            let mut v = x.1;
+            if let Some(o) = v.as_object_mut() {
+                o.remove("persistence_directory");
+            }
+            (x.0, v)
+        };
+        let plain = run_probe_layout(p, 0).ok().map(strip);
+        for layout in [1u8, 2] {
+            check_probe_layout(ctx, p, mode, layout)?;
+            let padded = run_probe_layout(p, layout).ok().map(strip);
+            if plain.is_some() && padded.is_some() && plain != padded {
+                return ctx.fail(
+                    "effective-differs-from-written|file|layout-of-the-file",
+                    format!("file source: settings {:?} give {:?} when written one per line and {:?} when the file also contains ~5 KiB of comment lines (layout {})", p.settings, plain, padded, layout),
+                );
+            }
+        }
+        ctx.class("c16:file:padded-with-comments");
+    }
+    Ok(())
+}
+
+fn check_probe_layout(ctx: &mut Ctx, p: &Probe, mode: ProbeMode, layout: u8) -> Res {
     ctx.eval();
     let want = model(p);
-    let (code, got, stderr) = match run_probe(p) {
+    let (code, got, stderr) = match run_probe_layout(p, layout) {
         Ok(x) => x,
         Err(e) => {
             ctx.inconclusive(e);
@@ -748,18 +793,23 @@ fn check_config(ctx: &mut Ctx, c: &ConfigCase) -> Res {
         let mut reqs = vec![];
         for sock in &socks {
             k += 1;
-            let req = fresh_request(Proto::Classic, b"c15", k ^ ((s.port as u64) << 32));
+            // two classic requests, then one IETF request, and so on: every wave mixes the protocols
+            let proto = if k % 3 == 0 { Proto::Ietf } else { Proto::Classic };
+            let req = fresh_request(proto, b"c15", k ^ ((s.port as u64) << 32));
             let _ = sock.send_to(&req, s.addr());
-            reqs.push(req);
+            reqs.push((proto, req));
         }
-        for (sock, req) in socks.iter().zip(reqs.iter()) {
+        for (sock, (proto, req)) in socks.iter().zip(reqs.iter()) {
             sock.set_read_timeout(Some(Duration::from_secs(3))).unwrap();
             let mut buf = [0u8; 4096];
             match sock.recv_from(&mut buf) {
-                Ok((len, _)) => match verify_strict(Proto::Classic, req, &buf[..len], &s.pk) {
+                Ok((len, _)) => match verify_strict(*proto, req, &buf[..len], &s.pk) {
                     Ok(info) => {
                         verified += 1;
-                        keys.insert(pubk_of(&info));
+                        // (one delegated key per worker and protocol: the census counts the classic ones)
+                        if *proto == Proto::Classic {
+                            keys.insert(pubk_of(&info));
+                        }
                     }
                     Err(e) => {
                         failed += 1;
@@ -843,6 +893,15 @@ fn check_config(ctx: &mut Ctx, c: &ConfigCase) -> Res {
             }
             if got < m {
                 if s.udp_drops() > 0 {
+                    // in the stopped round nothing is drained while the burst arrives: it either fits the queue or not. A
+                    // socket with the system's default receive buffer holds `cap` such datagrams (measured here, now)
+                    let cap = default_queue_capacity(1024);
+                    if round == 1 && (m + 4) * 100 <= cap * 85 {
+                        return ctx.fail(
+                            "request-unanswered|receive-queue-smaller-than-the-default",
+                            format!("{}: {} requests (+4 other datagrams) were sent to the stopped server by one client; a socket with the default receive buffer holds {} such datagrams, yet the kernel dropped {} at the server's socket and only {} requests were answered", tag, m, cap, s.udp_drops(), got),
+                        );
+                    }
                     ctx.inconclusive(format!("{}: burst replies missing but the kernel reports drops", tag));
                     return Ok(());
                 }
@@ -900,6 +959,46 @@ fn check_config(ctx: &mut Ctx, c: &ConfigCase) -> Res {
                     if got.is_empty() { "health-no-response|burst" } else { "health-response-differs" },
                     format!("{}: connection #{} of a burst of {} simultaneous health connections read {:?} within 3 s", tag, j, 2 * n + 1, String::from_utf8_lossy(&got)),
                 );
+            }
+        }
+        // clients that connect and say nothing, or stop in the middle of their request line, and stay connected:
+        // the time service must go on for everybody (requests from 4*N fresh sockets reach every worker)
+        {
+            let mut held: Vec<TcpStream> = vec![];
+            for j in 0..2 * n {
+                if let Ok(mut st) = TcpStream::connect_timeout(&format!("127.0.0.1:{}", hc).parse().unwrap(), Duration::from_secs(2)) {
+                    if j % 2 == 1 {
+                        let _ = st.write_all(b"GET / HT");
+                    }
+                    held.push(st);
+                }
+            }
+            std::thread::sleep(Duration::from_millis(30));
+            for j in 0..4 * n {
+                let c = UdpSocket::bind("127.0.0.1:0").unwrap();
+                k += 1;
+                let req = fresh_request(Proto::Classic, b"c15q", k);
+                if exchange(&c, s.addr(), &req, Duration::from_secs(3)).is_none() && s.udp_drops() == 0 {
+                    return ctx.fail(
+                        "time-service-stalls-during-health-checks|silent-connection-held-open",
+                        format!("{}: with {} health connections open that send nothing (or half a request line), UDP request #{} from a fresh socket went unanswered for 3 s", tag, held.len(), j),
+                    );
+                }
+            }
+            drop(held);
+        }
+        // a large burst: 70 connections pending at once (more than any per-event bound an implementation may have);
+        // all are answered, and the time service goes on afterwards (the UDP exchange of the sequential run below)
+        {
+            let big: Vec<TcpStream> = (0..70).filter_map(|_| TcpStream::connect_timeout(&format!("127.0.0.1:{}", hc).parse().unwrap(), Duration::from_secs(2)).ok()).collect();
+            let opened = big.len();
+            for (j, mut st) in big.into_iter().enumerate() {
+                st.set_read_timeout(Some(Duration::from_secs(3))).unwrap();
+                let mut got = Vec::new();
+                let _ = st.read_to_end(&mut got);
+                if !health_ok(&got) {
+                    return ctx.fail("health-no-response|burst-70", format!("{}: connection #{} of {} simultaneous health connections read {:?} within 3 s", tag, j, opened, String::from_utf8_lossy(&got)));
+                }
             }
         }
         for j in 0..3 * n {
@@ -999,6 +1098,30 @@ fn check_config(ctx: &mut Ctx, c: &ConfigCase) -> Res {
         ctx.nontrivial(c);
     }
     Ok(())
+}
+
+/// how many datagrams of `size` bytes a UDP socket with the system's DEFAULT receive buffer queues when nobody reads
+/// (measured on a fresh loopback socket pair)
+pub fn default_queue_capacity(size: usize) -> usize {
+    let r = match UdpSocket::bind("127.0.0.1:0") {
+        Ok(r) => r,
+        Err(_) => return 0,
+    };
+    let s = match UdpSocket::bind("127.0.0.1:0") {
+        Ok(s) => s,
+        Err(_) => return 0,
+    };
+    let payload = vec![0u8; size];
+    for _ in 0..600 {
+        let _ = s.send_to(&payload, r.local_addr().unwrap());
+    }
+    r.set_nonblocking(true).unwrap();
+    let mut buf = vec![0u8; size + 16];
+    let mut n = 0;
+    while r.recv_from(&mut buf).is_ok() {
+        n += 1;
+    }
+    n
 }
 
 /// "the fixed HTTP 200 response": an HTTP/1.x 200 status line, header lines only, no body, then EOF
@@ -1165,6 +1288,11 @@ fn run_round(ctx: &mut Ctx, s: &mut ServerProc, r: &Round, round_no: u64) -> Res
     let mut handles = vec![];
     // packets dropped before they reach any socket (per-CPU backlog of the loopback device full) are counted host-wide
     let softnet0 = softnet_drops();
+    // everything that can be outstanding at once (closed loop: one request per client, two when retransmitting, plus the
+    // noise sender during a pause) against what a socket with the DEFAULT receive buffer queues
+    let outstanding_max = n_clients * if r.retransmit && r.clients <= 32 { 2 } else { 1 } + if r.noise { 20 } else { 0 };
+    let default_cap = default_queue_capacity(1036);
+    let server_drops0 = udp_drops_for_port(port);
     for c in 0..n_clients {
         let r = r.clone();
         let pk = pk.clone();
@@ -1218,8 +1346,14 @@ fn run_round(ctx: &mut Ctx, s: &mut ServerProc, r: &Round, round_no: u64) -> Res
                         }
                     },
                     Err(_) => {
-                        let drops = udp_drops_for_port(port) + udp_drops_for_port(my_port) + softnet_drops().saturating_sub(softnet0);
-                        if drops > 0 {
+                        let server_drops = udp_drops_for_port(port).saturating_sub(server_drops0);
+                        let drops = server_drops + udp_drops_for_port(my_port) + softnet_drops().saturating_sub(softnet0);
+                        if server_drops > 0 && outstanding_max * 100 <= default_cap * 85 {
+                            out.violation = Some(viol(
+                                "request-unanswered-under-load|receive-queue-smaller-than-the-default",
+                                format!("client {} request {} ({}) got no reply within 10 s; the kernel dropped {} datagrams at the server's socket although at most {} datagrams can be outstanding in this round and a socket with the default receive buffer queues {}", c, k, proto.name(), server_drops, outstanding_max, default_cap),
+                            ));
+                        } else if drops > 0 {
                             out.inconclusive = Some(format!("request unanswered but {} kernel drops reported", drops));
                         } else {
                             out.violation = Some(viol("request-unanswered-under-load", format!("client {} request {} ({}) got no reply within 10 s and the kernel reports no drops", c, k, proto.name())));
@@ -1476,6 +1610,13 @@ pub struct SignalPlan {
     /// 2 = SIGINT and SIGQUIT inherited as ignored (background job of a non-interactive shell; only SIGTERM plans)
     #[serde(default)]
     pub started_by: u8,
+    /// > 0: a second signal of the same kind follows the first after this many milliseconds
+    #[serde(default)]
+    pub second_after_ms: u8,
+    /// the server has a health-check port; before the signal its descriptor limit is lowered to what it has open and a
+    /// health connection is made (which it cannot accept: EMFILE)
+    #[serde(default)]
+    pub fd_exhausted: bool,
 }
 
 fn check_signal(ctx: &mut Ctx, p: &SignalPlan) -> Res {
@@ -1487,7 +1628,7 @@ fn check_signal(ctx: &mut Ctx, p: &SignalPlan) -> Res {
         2 if p.term => vec![libc::SIGINT, libc::SIGQUIT],
         _ => vec![],
     };
-    let cfg = SrvCfg { seed_hex: GOOD_SEED.into(), workers: Some(p.workers as u64), client_stats: p.stats, status_interval: p.status_interval.map(|x| x as u32), inherit_ignored, ..Default::default() };
+    let cfg = SrvCfg { seed_hex: GOOD_SEED.into(), workers: Some(p.workers as u64), client_stats: p.stats, status_interval: p.status_interval.map(|x| x as u32), inherit_ignored, health: p.fd_exhausted, ..Default::default() };
     let mut s = match ServerProc::start(&cfg) {
         Ok(s) => s,
         Err(e) => {
@@ -1675,9 +1816,28 @@ fn check_signal(ctx: &mut Ctx, p: &SignalPlan) -> Res {
     std::thread::sleep(Duration::from_millis(p.delay_ms as u64));
     // how much is queued at the server right now (measures whether a flood really keeps the queue non-empty)
     let rxq = (0..3).map(|_| udp_rx_queue_for_port(s.port)).max().unwrap_or(0);
+    let mut pending_health: Vec<TcpStream> = vec![];
+    if p.fd_exhausted {
+        if let (Some(hc), Some(open)) = (s.hc_port, s.fd_count()) {
+            if s.set_nofile_soft(open as u64) {
+                for _ in 0..p.workers.max(1) as usize * 2 {
+                    if let Ok(st) = TcpStream::connect_timeout(&format!("127.0.0.1:{}", hc).parse().unwrap(), Duration::from_secs(1)) {
+                        pending_health.push(st);
+                    }
+                }
+                std::thread::sleep(Duration::from_millis(60));
+                ctx.class("c19:descriptor-limit-reached-with-health-connections-pending");
+            }
+        }
+    }
     let sig_at = t0.elapsed().as_nanos() as u64;
     s.signal(if p.term { libc::SIGTERM } else { libc::SIGINT });
     let t_sig = Instant::now();
+    if p.second_after_ms > 0 {
+        std::thread::sleep(Duration::from_millis(p.second_after_ms as u64));
+        s.signal(if p.term { libc::SIGTERM } else { libc::SIGINT });
+        ctx.class("c19:second-signal");
+    }
     let status = s.wait_exit(Duration::from_secs(5));
     let reaction = t_sig.elapsed();
     let mut late_exit = None;
@@ -1687,6 +1847,7 @@ fn check_signal(ctx: &mut Ctx, p: &SignalPlan) -> Res {
         late_exit = s.wait_exit(Duration::from_secs(2));
     }
     stop.store(true, Ordering::Relaxed);
+    drop(pending_health);
     for h in handles {
         let _ = h.join();
     }
@@ -1752,29 +1913,38 @@ fn c19_grid() -> Vec<SignalPlan> {
         for term in [false, true] {
             for load in [Load::Idle, Load::Closed(4), Load::Flood(4, 0), Load::Flood(3, 1), Load::Closed(16), Load::Flood(6, 2), Load::Flood(6, 3), Load::Flood(5, 4)] {
                 i += 1;
-                out.push(SignalPlan { workers, stats: i % 5 == 0, term, load, delay_ms: delays[i % delays.len()], status_interval: [None, Some(10), Some(1)][i % 3], early: false, started_by: 0 });
+                out.push(SignalPlan { workers, stats: i % 5 == 0, term, load, delay_ms: delays[i % delays.len()], status_interval: [None, Some(10), Some(1)][i % 3], early: false, started_by: 0, second_after_ms: 0, fd_exhausted: false });
             }
         }
     }
     // signal after the server has been idle for a while (seconds since start-up / since the last request)
-    out.push(SignalPlan { workers: 1, stats: false, term: true, load: Load::Idle, delay_ms: 3_600, status_interval: None, early: false, started_by: 0 });
-    out.push(SignalPlan { workers: 4, stats: false, term: false, load: Load::ThenIdle(3), delay_ms: 4_200, status_interval: None, early: false, started_by: 0 });
-    out.push(SignalPlan { workers: 4, stats: true, term: true, load: Load::Idle, delay_ms: 6_500, status_interval: Some(600), early: false, started_by: 0 });
+    out.push(SignalPlan { workers: 1, stats: false, term: true, load: Load::Idle, delay_ms: 3_600, status_interval: None, early: false, started_by: 0, second_after_ms: 0, fd_exhausted: false });
+    out.push(SignalPlan { workers: 4, stats: false, term: false, load: Load::ThenIdle(3), delay_ms: 4_200, status_interval: None, early: false, started_by: 0, second_after_ms: 0, fd_exhausted: false });
+    out.push(SignalPlan { workers: 4, stats: true, term: true, load: Load::Idle, delay_ms: 6_500, status_interval: Some(600), early: false, started_by: 0, second_after_ms: 0, fd_exhausted: false });
     // floods made only of datagrams that are expensive to reject, against a single worker (every sender lands on it)
     for (k, (term, delay_ms, stats)) in [(true, 100u16, false), (false, 30, false), (true, 250, true)].iter().enumerate() {
-        out.push(SignalPlan { workers: 1, stats: *stats, term: *term, load: Load::Flood(8, 5), delay_ms: *delay_ms, status_interval: [None, Some(1), Some(10)][k], early: false, started_by: 0 });
+        out.push(SignalPlan { workers: 1, stats: *stats, term: *term, load: Load::Flood(8, 5), delay_ms: *delay_ms, status_interval: [None, Some(1), Some(10)][k], early: false, started_by: 0, second_after_ms: 0, fd_exhausted: false });
     }
-    out.push(SignalPlan { workers: 4, stats: false, term: true, load: Load::Flood(12, 5), delay_ms: 60, status_interval: None, early: false, started_by: 0 });
+    out.push(SignalPlan { workers: 4, stats: false, term: true, load: Load::Flood(12, 5), delay_ms: 60, status_interval: None, early: false, started_by: 0, second_after_ms: 0, fd_exhausted: false });
     // floods of valid requests whose replies cannot be sent
-    out.push(SignalPlan { workers: 1, stats: false, term: true, load: Load::Flood(6, 6), delay_ms: 150, status_interval: None, early: false, started_by: 0 });
-    out.push(SignalPlan { workers: 4, stats: true, term: false, load: Load::Flood(6, 6), delay_ms: 80, status_interval: Some(1), early: false, started_by: 0 });
+    out.push(SignalPlan { workers: 1, stats: false, term: true, load: Load::Flood(6, 6), delay_ms: 150, status_interval: None, early: false, started_by: 0, second_after_ms: 0, fd_exhausted: false });
+    out.push(SignalPlan { workers: 4, stats: true, term: false, load: Load::Flood(6, 6), delay_ms: 80, status_interval: Some(1), early: false, started_by: 0, second_after_ms: 0, fd_exhausted: false });
     // the server was started under nohup (SIGHUP ignored) or as a background job of a script (SIGINT, SIGQUIT ignored)
     for (k, (workers, term, started_by, load)) in [(1u8, true, 1u8, Load::Idle), (4, false, 1, Load::Closed(4)), (4, true, 2, Load::Idle), (1, true, 2, Load::Closed(2)), (16, false, 1, Load::Idle)].into_iter().enumerate() {
-        out.push(SignalPlan { workers, stats: k == 3, term, load, delay_ms: 40 * k as u16, status_interval: None, early: false, started_by });
+        out.push(SignalPlan { workers, stats: k == 3, term, load, delay_ms: 40 * k as u16, status_interval: None, early: false, started_by, second_after_ms: 0, fd_exhausted: false });
+    }
+    // two signals in quick succession (an impatient operator, or a supervisor that sends TERM to the process group twice)
+    for (k, gap) in [1u8, 5, 20, 60, 100].iter().enumerate() {
+        out.push(SignalPlan { workers: [1u8, 4][k % 2], stats: true, term: k % 2 == 0, load: Load::Idle, delay_ms: 50, status_interval: None, early: false, started_by: 0, second_after_ms: *gap, fd_exhausted: false });
+    }
+    out.push(SignalPlan { workers: 4, stats: false, term: true, load: Load::Closed(4), delay_ms: 50, status_interval: None, early: false, started_by: 0, second_after_ms: 10, fd_exhausted: false });
+    // the process is at its descriptor limit and health connections are pending when the signal comes
+    for (workers, term) in [(1u8, true), (1, false), (4, true)] {
+        out.push(SignalPlan { workers, stats: false, term, load: Load::Idle, delay_ms: 30, status_interval: None, early: false, started_by: 0, second_after_ms: 0, fd_exhausted: true });
     }
     // signal right after the first response, while the other workers of a 16-worker server are still starting
     for (k, delay_ms) in [0u16, 1, 2, 5, 10, 20, 40, 80].iter().enumerate() {
-        out.push(SignalPlan { workers: 16, stats: k % 4 == 3, term: k % 2 == 0, load: Load::Idle, delay_ms: *delay_ms, status_interval: None, early: true, started_by: 0 });
+        out.push(SignalPlan { workers: 16, stats: k % 4 == 3, term: k % 2 == 0, load: Load::Idle, delay_ms: *delay_ms, status_interval: None, early: true, started_by: 0, second_after_ms: 0, fd_exhausted: false });
     }
     out
 }
@@ -1785,7 +1955,7 @@ fn c19_random() -> impl Strategy<Value = SignalPlan> {
         // idle shapes also sweep long idle periods (most of them short, some up to 12 s)
         let delay_ms = if matches!(load, Load::Idle | Load::ThenIdle(_)) && long % 3 == 0 { long } else { delay_ms };
         let early = matches!(load, Load::Idle) && delay_ms <= 100 && long % 2 == 0;
-        SignalPlan { workers, stats, term, load, delay_ms, status_interval, early, started_by: (long % 7 == 1) as u8 + 2 * (long % 7 == 2) as u8 }
+        SignalPlan { workers, stats, term, load, delay_ms, status_interval, early, started_by: (long % 7 == 1) as u8 + 2 * (long % 7 == 2) as u8, second_after_ms: if long % 5 == 0 { (long % 120) as u8 } else { 0 }, fd_exhausted: long % 11 == 3 }
     })
 }
 
@@ -1823,7 +1993,13 @@ pub struct IdentityRun {
     pub via_env: bool,
     pub workers: u8,
     pub restarts: u8,
+    /// index into IDENTITY_ZONES: the TZ the server runs under (its identity and certificates do not depend on it)
+    #[serde(default)]
+    pub tz: u8,
 }
+
+/// none, and zones whose local calendar date differs from the UTC date for most of the day (POSIX sign: AAA-14 = UTC+14)
+pub const IDENTITY_ZONES: [&str; 6] = ["", "AAA-23:59", "AAA23:59", "AAA-14", "AAA12", "Pacific/Kiritimati"];
 
 fn check_identity_run(ctx: &mut Ctx, r: &IdentityRun) -> Res {
     let seed = rc::unhex(&r.seed_text);
@@ -1832,7 +2008,8 @@ fn check_identity_run(ctx: &mut Ctx, r: &IdentityRun) -> Res {
     let n = r.workers.max(1) as usize;
     for start in 0..r.restarts.max(1) {
         ctx.eval();
-        let cfg = SrvCfg { seed_hex: r.seed_text.clone(), workers: Some(n as u64), via_env: r.via_env, ..Default::default() };
+        let zone = IDENTITY_ZONES[r.tz as usize % IDENTITY_ZONES.len()];
+        let cfg = SrvCfg { seed_hex: r.seed_text.clone(), workers: Some(n as u64), via_env: r.via_env, env_extra: if zone.is_empty() { vec![] } else { vec![("TZ".to_string(), zone.to_string())] }, ..Default::default() };
         let mut s = match ServerProc::start(&cfg) {
             Ok(s) => s,
             Err(e) => {
@@ -1888,7 +2065,7 @@ pub fn c10_process_part(ctx: &mut Ctx) -> Vec<Violation> {
         // digits with one 'e': YAML types it as a float in exponent notation
         1 => ("[1-9][0-9]{20}", "[0-9]{42}").prop_map(|(a, b)| format!("{}e{}", a, b)),
     ];
-    let strat = (seed_text, any::<bool>(), 1u8..=4, 1u8..=2).prop_map(|(seed_text, via_env, workers, restarts)| IdentityRun { seed_text, via_env, workers, restarts });
+    let strat = (seed_text, any::<bool>(), 1u8..=4, 1u8..=2, prop_oneof![1 => Just(0u8), 2 => 1u8..6]).prop_map(|(seed_text, via_env, workers, restarts, tz)| IdentityRun { seed_text, via_env, workers, restarts, tz });
     run_prop(ctx, "real-binary", t.pick(32, 480), 4, strat, |ctx, r| {
         ctx.sample("real-binary", 2, r);
         check_identity_run(ctx, r)
